@@ -36,7 +36,8 @@ type fsrv struct {
 	nconn  atomic.Int32
 	nq     atomic.Int32
 
-	closeOnEOF atomic.Bool // life mode: the server closes its side when the client goes away
+	closeOnEOF          atomic.Bool // life mode: the server closes its side when the client goes away
+	keepFailedHandshake atomic.Bool // keep a connection whose TLS handshake failed until the client closes it
 }
 
 func (s *fsrv) f() string { return s.fault.Load().(string) }
@@ -89,6 +90,9 @@ func (s *fsrv) streamServe(c net.Conn, useTLS bool) {
 	if useTLS {
 		tc := tls.Server(c, &tls.Config{Certificates: []tls.Certificate{s.cert}})
 		if err := tc.Handshake(); err != nil {
+			if s.keepFailedHandshake.Load() { // witness: the client must close the connection it could not use
+				io.Copy(io.Discard, c)
+			}
 			c.Close()
 			s.conns.Delete(c)
 			return
@@ -100,6 +104,23 @@ func (s *fsrv) streamServe(c net.Conn, useTLS bool) {
 	}
 	if s.f() == "silent" {
 		return // never read, never write; the connection stays referenced (open) until the scenario ends
+	}
+	if s.f() == "silent-frame" { // never read; one well-formed (unsolicited) reply frame after a while
+		go func() {
+			time.Sleep(250 * time.Millisecond)
+			q := new(dns.Msg)
+			q.SetQuestion("unsolicited.test.", dns.TypeA)
+			q.Id = 65000
+			if w, err := q.Pack(); err == nil {
+				if a := mkAnswer(w); a != nil {
+					f := make([]byte, 2+len(a))
+					binary.BigEndian.PutUint16(f, uint16(len(a)))
+					copy(f[2:], a)
+					c.Write(f)
+				}
+			}
+		}()
+		return
 	}
 	defer func() { s.conns.Delete(c) }()
 	var wm sync.Mutex
@@ -440,7 +461,7 @@ func (s *fsrv) url() string {
 // one scenario: a fresh server + a fresh upstream built by the real NewUpstream
 func faultScenario(kind, fault string, rng *rand.Rand) {
 	sc := fmt.Sprintf("%s/%s", kind, fault)
-	smallBuffers.Store(fault == "sndbuf")
+	smallBuffers.Store(fault == "sndbuf" || fault == "sndbuf2")
 	s := newFsrv(kind)
 	defer s.close()
 	var dials atomic.Int32
@@ -450,7 +471,7 @@ func faultScenario(kind, fault string, rng *rand.Rand) {
 				return nil
 			}
 			dials.Add(1)
-			if fault == "sndbuf" {
+			if fault == "sndbuf" || fault == "sndbuf2" {
 				c.Control(func(fd uintptr) { syscall.SetsockoptInt(int(fd), syscall.SOL_SOCKET, syscall.SO_SNDBUF, 4096) })
 			}
 			return nil
@@ -540,6 +561,42 @@ func faultScenario(kind, fault string, rng *rand.Rand) {
 		tr.Emit("fault", "sc", sc, "kind", "kill")
 		s.killAll()
 		wg.Wait()
+	case "sndbuf2":
+		// the peer never reads. A small query (it fits the socket buffers) waits for its reply with a short deadline
+		// while large queries with a longer deadline block in write on the same connection, and the peer sends one
+		// unsolicited frame meanwhile: the small one ends by ITS deadline, the large ones by theirs.
+		s.fault.Store("silent-frame")
+		var wg sync.WaitGroup
+		wg.Add(1)
+		go func() { defer wg.Done(); one(600*time.Millisecond, "any") }()
+		time.Sleep(60 * time.Millisecond)
+		for i := 0; i < 8; i++ {
+			wg.Add(1)
+			go func() {
+				defer wg.Done()
+				ex := int(exCtr.Add(1))
+				q := new(dns.Msg)
+				q.SetQuestion(exName(ex), dns.TypeA)
+				for k := 0; k < 250; k++ {
+					q.Extra = append(q.Extra, &dns.TXT{Hdr: dns.RR_Header{Name: ".", Rrtype: dns.TypeTXT, Class: 1}, Txt: []string{string(make([]byte, 240))}})
+				}
+				w, _ := q.Pack()
+				ctx, cancel := context.WithTimeout(context.Background(), 2200*time.Millisecond)
+				defer cancel()
+				dl, _ := ctx.Deadline()
+				tr.Emit("fx.begin", "ex", ex, "sc", sc, "deadline", tr.MsOf(dl), "want", "any")
+				r, err := u.ExchangeContext(ctx, w)
+				k, es := "reply", ""
+				if err != nil {
+					k, es = "error", err.Error()
+				}
+				if r != nil {
+					releaseMsg(r)
+				}
+				tr.Emit("fx.end", "ex", ex, "sc", sc, "kind", k, "err", es)
+			}()
+		}
+		wg.Wait()
 	case "sndbuf":
 		// the peer accepts and never reads; queries are large: a blocking write must not outlive the deadline
 		s.fault.Store("silent")
@@ -622,15 +679,18 @@ func modeFault(thorough bool) {
 	onlyEvents = map[string]bool{} // hook and server events are not needed here
 	rng := rand.New(rand.NewSource(seed))
 	kinds := []string{"udp", "tcp", "tcp+pipeline", "tls", "tls+pipeline", "https", "quic", "h3"}
-	faults := []string{"refuse", "silent", "noreply", "half", "garbage", "fin", "rst", "stall", "stale", "kill", "sndbuf", "eol"}
+	faults := []string{"refuse", "silent", "noreply", "half", "garbage", "fin", "rst", "stall", "stale", "kill", "sndbuf", "sndbuf2", "eol"}
 	var wg sync.WaitGroup
 	sem := make(chan struct{}, 6)
 	for _, k := range kinds {
 		for _, f := range faults {
-			if k == "udp" && (f == "fin" || f == "rst" || f == "stale" || f == "stall" || f == "kill" || f == "sndbuf") {
+			if k == "udp" && (f == "fin" || f == "rst" || f == "stale" || f == "stall" || f == "kill" || f == "sndbuf" || f == "sndbuf2") {
 				continue
 			}
 			if f == "stall" && !(strings.HasPrefix(k, "tls") || k == "https") {
+				continue
+			}
+			if f == "sndbuf2" && k != "tcp+pipeline" {
 				continue
 			}
 			if f == "sndbuf" && !(k == "tcp+pipeline" || k == "tcp") {
